@@ -259,6 +259,21 @@ class _NpInterp(FinamInterp):
         return super().call_hook(fv, args, kwargs, node, mod)
 
 
+def _canon_flat(v):
+    """x.ravel(o) == x.flatten(o) == x.reshape(-1, order=o): one term."""
+    if isinstance(v, Sym):
+        args = [_canon_flat(a) for a in v.args]
+        if v.op in ("ravel", "flatten") and 1 <= len(args) <= 2:
+            o = args[1] if len(args) > 1 else "C"
+            if isinstance(o, Sym) and o.op == "kw" and o.args[0] == "order":
+                o = o.args[1]
+            return Sym("reshape", args[0], -1, o)
+        if v.op == "reshape" and len(args) == 3 and args[1] in ((-1,), [-1]):
+            return Sym("reshape", args[0], -1, args[2])
+        return Sym(v.op, *args)
+    return v
+
+
 def r32p_order_map(repo, sink):
     om = repo.func("src/finam/data/grid_tools.py", "order_map")
     shape, of, to = Sym("shape"), Sym("of"), Sym("to")
@@ -268,6 +283,7 @@ def r32p_order_map(repo, sink):
         sink.unknown("R32", "order_map-definition", om, f"order_map outside vocabulary: {exc}")
         return
     want = Sym("reshape", Sym("reshape", Sym("arange", Sym("prod", shape)), shape, of), -1, to)
+    got = _canon_flat(got)
     sink.check(got == want, "R32", "order_map-definition", om, ok="order_map = arange(size).reshape(shape, of).reshape(-1, to)",
                bad=f"order_map computes {got!r}; it must number the positions in order `of` and list them in order `to`")
 
@@ -305,6 +321,8 @@ def r32p_casts(repo, sink):
         if m is None:
             continue
         me = Obj(cls=c, label=cname)
+        from ..absbase import seed_from_init
+        seed_from_init(FinamInterp(repo), c, me, {})  # private state as the constructors leave it (memo slots and the like)
         for f in fields + ("axes_increase", "dims", "spacing", "origin", "name"):
             me.fields[f] = Sym("field", f)
         it = _CastInterp(repo)
@@ -466,8 +484,100 @@ def r32p_copy_independent(repo, sink):
     sink.floor("R31", "structured grid classes with cached shapes", n, 1)
 
 
+# ------------------------------------------------------------------------------ cell axes on concrete small grids
+class _NumInterp(FinamInterp):
+    """Exact arithmetic on small concrete coordinate vectors (Vec of Fractions / ints): enough numpy for the per-axis
+    formulas of the grid classes.  Values are exactly representable, so equality is decidable."""
+
+    def binop(self, op, left, right, node):
+        from fractions import Fraction
+        from ..absbase import Vec
+        num = (int, float, Fraction)
+        fn = {ast.Add: lambda a, b: a + b, ast.Sub: lambda a, b: a - b, ast.Mult: lambda a, b: a * b,
+              ast.Div: lambda a, b: Fraction(a) / Fraction(b)}.get(type(op))
+        if fn is not None:
+            lv, rv = isinstance(left, Vec), isinstance(right, Vec)
+            if lv and rv:
+                if len(left) != len(right):
+                    self.on_raise(Sym("exc", "ValueError", "operands could not be broadcast together"), node)
+                return Vec(fn(_fr(a), _fr(b)) for a, b in zip(left, right))
+            if lv and isinstance(right, num) and not isinstance(right, bool):
+                return Vec(fn(_fr(a), _fr(right)) for a in left)
+            if rv and isinstance(left, num) and not isinstance(left, bool):
+                return Vec(fn(_fr(left), _fr(b)) for b in right)
+            if isinstance(left, num) and isinstance(right, num) and not isinstance(left, bool) and not isinstance(right, bool) and isinstance(op, ast.Div):
+                return _fr(left) / _fr(right)
+        return super().binop(op, left, right, node)
+
+    def ext_call(self, name, args, kwargs, node):
+        from ..absbase import Vec
+        short = name.split(".")[-1]
+        if short == "arange" and len(args) == 1 and isinstance(args[0], int):
+            return Vec(range(args[0]))
+        if short in ("asarray", "array", "atleast_1d", "ascontiguousarray") and args and isinstance(args[0], (Vec, tuple, list)):
+            return Vec(args[0])
+        if short == "linspace" and len(args) >= 3 and all(isinstance(a, (int, float)) for a in args[:2]) and isinstance(args[2], int) and args[2] > 1:
+            from fractions import Fraction
+            a, b, n = _fr(args[0]), _fr(args[1]), args[2]
+            return Vec(a + (b - a) * Fraction(i, n - 1) for i in range(n))
+        if short == "diff" and args and isinstance(args[0], Vec):
+            return Vec(b - a for a, b in zip(args[0][:-1], args[0][1:]))
+        if short == "mean" and args and isinstance(args[0], Vec):
+            from fractions import Fraction
+            return sum(args[0]) / Fraction(len(args[0]))
+        if short in ("maximum", "minimum") and len(args) == 2 and all(isinstance(a, int) for a in args):
+            return max(args) if short == "maximum" else min(args)
+        return super().ext_call(name, args, kwargs, node)
+
+    def builtin(self, name, args, kwargs, node):
+        if name in ("max", "min") and args and all(isinstance(a, int) and not isinstance(a, bool) for a in args):
+            return max(args) if name == "max" else min(args)
+        return super().builtin(name, args, kwargs, node)
+
+
+def _fr(x):
+    from fractions import Fraction
+    return x if isinstance(x, Fraction) else Fraction(x)
+
+
+def r32x_cell_axes(repo, sink):
+    """cell_axes of every structured grid class (the base definition and every override), evaluated exactly on small concrete
+    grids including axes with a single node: the cell axis holds the midpoints of neighbouring nodes, and the node itself on
+    a flat axis (a one-point axis has one 'cell' located at its node: points, cells and cell centres stay consistent)."""
+    from fractions import Fraction
+    from ..absbase import Vec
+    sg = repo.cls("StructuredGrid")
+    configs = [  # dims, spacing, origin
+        ((3, 2), (2, 5), (1, 10)), ((3, 1), (2, 5), (1, 10)), ((1, 4), (3, 1), (0, -2)), ((2, 3, 1), (1, 2, 4), (0, 0, 7)), ((1,), (2,), (5,)), ((4,), (3,), (-1,)),
+    ]
+    classes = [k for k in [sg] + list(repo.subclasses(sg)) if repo.resolve(k, "cell_axes", "getter") is not None]
+    seen, n = set(), 0
+    for k in classes:
+        g = repo.resolve(k, "cell_axes", "getter")
+        if g.qualname in seen:
+            continue
+        seen.add(g.qualname)
+        worst = None
+        try:
+            for dims, spacing, origin in configs:
+                axes = [Vec(Fraction(o) + Fraction(s) * i for i in range(d)) for d, s, o in zip(dims, spacing, origin)]
+                o = Obj(cls=k, label=k.name)
+                o.fields.update(axes=axes, dims=dims, spacing=spacing, origin=origin, dim=len(dims), axes_increase=[True] * len(dims))
+                got = _NumInterp(repo).run(g, [], self_obj=o)
+                want = [Vec((a + b) / 2 for a, b in zip(ax[:-1], ax[1:])) if len(ax) > 1 else ax for ax in axes]
+                n += 1
+                if [tuple(_fr(x) for x in v) if isinstance(v, (tuple, list)) else v for v in got] != [tuple(v) for v in want]:
+                    worst = worst or (f"dims {dims}, spacing {spacing}, origin {origin}: cell_axes is {[list(map(str, v)) if isinstance(v, (tuple, list)) else v for v in got]}, "
+                                      f"the midpoints of neighbouring nodes (the node itself on a one-point axis) are {[list(map(str, v)) for v in want]}")
+        except (AnalysisError, Undecided, Raised) as exc:
+            sink.unknown("R32", f"cell-axes:{g.qualname}", g, f"outside vocabulary: {exc}")
+            continue
+        sink.check(worst is None, "R32", f"cell-axes:{g.qualname}", g, ok="cell axes are the node midpoints; a flat axis keeps its node", bad=worst or "")
+    sink.floor("R32", "cell_axes evaluations", n, 6)
+
+
 def r32p(repo, sink):
-    for fn in (r32p_gen_points, r32p_order_map, r32p_casts, r32p_locations, r32p_copy_independent):
+    for fn in (r32p_gen_points, r32p_order_map, r32p_casts, r32p_locations, r32p_copy_independent, r32x_cell_axes):
         try:
             fn(repo, sink)
         except (AnalysisError, Undecided) as exc:
